@@ -178,7 +178,7 @@ func (t *JT) PathString(p JPath) string {
 }
 
 // FaultKinds lists the schema faults applied at a path.
-var FaultKinds = []string{"null", "number", "string", "object", "array", "bool", "empty", "absent", "duplicate", "oversize", "deep", "freetext"}
+var FaultKinds = []string{"null", "number", "string", "object", "array", "bool", "empty", "absent", "duplicate", "oversize", "deep", "freetext", "spaced", "padded"}
 
 // ApplyFault returns a copy of t with the fault applied at p, or nil when it does not apply there.
 func (t *JT) ApplyFault(p JPath, kind string) *JT {
@@ -292,6 +292,16 @@ func (t *JT) ApplyFault(p JPath, kind string) *JT {
 			return nil
 		}
 		return set(&JT{Kind: 's', Scalar: "x"})
+	case "spaced": // interior blanks: a date written the way people write dates, several words
+		if cur.Kind != 's' {
+			return nil
+		}
+		return set(&JT{Kind: 's', Scalar: "2023-11-06 12:29:21Z and  more"})
+	case "padded":
+		if cur.Kind != 's' {
+			return nil
+		}
+		return set(&JT{Kind: 's', Scalar: "  " + cur.Scalar + "\t "})
 	}
 	return nil
 }
